@@ -81,6 +81,9 @@ def plan(tier, seed):
         shards.append(("mark", "g", 5, 2, True, a, b))
     for a, b in E.chunks(729, 81):
         shards.append(("mark", "feat", "2d", 3, "euclidean", a, b))
+    # deep forests: a tie-free chain of 5..40 samples hanging off one prototype; queries near its far end
+    shards.append(("mark", "chain", 5, 23))
+    shards.append(("mark", "chain", 23, 41))
     for pi in range(24):
         shards.append(("prune", pi))
     for a, b in E.chunks(3024, 126):
@@ -302,6 +305,16 @@ def shard_learn(shard, seed, res):
 # --------------------------------------------------------------------------
 def mark_programs(shard, seed):
     fam = shard[1]
+    if fam == "chain":
+        sc = [1.0, 0.5, 2.0, 3.0][seed % 4] if seed else 1.0
+        for n in range(shard[2], shard[3]):
+            xs = [sc * i * (1.0 + i * 1e-3) for i in range(n)]
+            for head, labs in ((1, (0, 1)), (2, (1, 0)), (2, (5, 2))):
+                lab = [labs[0] if i < head else labs[1] for i in range(n)]
+                qs = [[xs[-1] + 0.25 * sc], [xs[n // 2] + 0.1 * sc], [xs[0] - 0.3 * sc], [xs[-1]]]
+                yield {"model": "SupervisedOPF", "mode": "features", "X": [[x] for x in xs], "metric": "euclidean",
+                       "labels": lab, "n_unlabeled": 0, "batches": [qs]}
+        return
     if fam in ("wo", "g"):
         for p in c03.programs(shard[1:], seed):
             yield p
